@@ -1,7 +1,7 @@
 (* C18 — Glyphs not flagged unsafe-to-break are safe cut points (partial: flag algebra of the buffer).
    Property theorems only.  The statement about re-shaping the pieces depends on which windows GSUB/GPOS/kern inspect
-   and is explored by the cut-and-reshape sweep, not proved. *)
-From TV Require Import Model.Buffer Spec.Buffer Proofs.Buffer.
+   and is explored by the cut-and-reshape sweep (go/cmd/c18sweep), not proved. *)
+From TV Require Import Model.Buffer Spec.Buffer Proofs.Buffer Proofs.BufferOps.
 
 (* propagateFlags on ANY buffer whose cluster values are monotone (levels other than Characters): it returns normally
    (no OutOfFuel), keeps clusters, cursor and out-buffer, and — when a flag was recorded (bsfHasGlyphFlags) — afterwards
@@ -36,6 +36,114 @@ Theorem unsafe_marks_interior : forall b s e,
 Proof. exact unsafe_marks_interior_lemma. Qed.
 Print Assumptions unsafe_marks_interior.
 
+(* the same for the two other interior setters: unsafeToConcat (a no-op unless ProduceUnsafeToConcat is set) and
+   safeToInsertTatweel (which degrades to unsafeToBreak unless ProduceSafeToInsertTatweel is set) *)
+Theorem unsafe_concat_marks_interior : forall b s e,
+  (level b =? 2) = false -> 0 <= s ->
+  monotone (cls (info b)) = true -> Forall (fun g => cl g <= max_int) (info b) ->
+  exists b', unsafe_to_concat b s e = Ok b'
+    /\ info b' = (if fl_concat b then marks_interior m_concat s e (info b) else info b)
+    /\ out b' = out b /\ idx b' = idx b /\ have_out b' = have_out b /\ level b' = level b
+    /\ (b' = b \/ has_gf b' = true).
+Proof. exact unsafe_concat_marks_interior_lemma. Qed.
+Print Assumptions unsafe_concat_marks_interior.
+
+Theorem tatweel_marks_interior : forall b s e,
+  (level b =? 2) = false -> 0 <= s ->
+  monotone (cls (info b)) = true -> Forall (fun g => cl g <= max_int) (info b) ->
+  exists b', safe_to_insert_tatweel b s e = Ok b'
+    /\ info b' = marks_interior (if fl_tatweel b then m_tatweel else m_break) s e (info b)
+    /\ out b' = out b /\ idx b' = idx b /\ have_out b' = have_out b /\ level b' = level b
+    /\ (b' = b \/ has_gf b' = true).
+Proof. exact tatweel_marks_interior_lemma. Qed.
+Print Assumptions tatweel_marks_interior.
+
+(* unsafeToBreakFromOutbuffer(s, e) with output in progress (what GSUB calls while it rewrites the buffer), on ANY buffer
+   whose glyph sequence  out ++ unread input  is monotone, under upstream's assertions s <= len(out), idx <= e: the
+   inspected window is out[s:] followed by Info[idx:min(e, len)]; it returns normally and flags exactly the glyphs of that
+   window outside the window's minimal cluster c (cond_flag c), nothing else, and records the write *)
+Theorem unsafe_from_outbuffer_marks_interior : forall b s e,
+  (level b =? 2) = false -> have_out b = true ->
+  0 <= s -> s <= zlen (out b) -> 0 <= idx b -> idx b <= zlen (info b) -> idx b <= e ->
+  monotone (cls (bseq b)) = true -> Forall (fun g => cl g <= max_int) (bseq b) ->
+  let e' := Z.min e (zlen (info b)) in
+  let c := lmin (cls (slice s (zlen (out b)) (out b) ++ slice (idx b) e' (info b))) in
+  exists b', unsafe_to_break_from_outbuffer b s e = Ok b'
+    /\ out b' = map_range (cond_flag c m_break) s (zlen (out b)) (out b)
+    /\ info b' = map_range (cond_flag c m_break) (idx b) e' (info b)
+    /\ idx b' = idx b /\ have_out b' = true /\ level b' = level b /\ has_gf b' = true.
+Proof. exact unsafe_break_out_lemma. Qed.
+Print Assumptions unsafe_from_outbuffer_marks_interior.
+
+(* setCluster(c, mask) REPLACES the three glyph flags of a glyph whose cluster changes (mask = 0 from mergeClusters, the
+   deleted glyph's Mask from deleteGlyph).  What that means for unsafe-to-break, read off the code and proved:
+
+   mergeClusters(s, e) (any buffer, clusters monotone or not): glyph by glyph, in Info and in the out-buffer, a glyph is
+   either untouched or moved to c = the minimum cluster of [s, e) with its glyph flags cleared (mrel c fl0); in particular
+   no glyph that already carries c loses a flag; bsfHasGlyphFlags is kept. *)
+Theorem merge_flag_transfer : forall b s e,
+  (level b =? 2) = false -> 0 <= idx b -> 0 <= s -> s + 2 <= e -> e <= zlen (info b) ->
+  exists b', merge_clusters b s e = Ok b'
+    /\ Forall2 (mrel (lmin (cls (slice s e (info b)))) fl0) (info b) (info b')
+    /\ Forall2 (mrel (lmin (cls (slice s e (info b)))) fl0) (out b) (out b')
+    /\ has_gf b' = has_gf b.
+Proof. exact BufferOps.merge_flag_transfer. Qed.
+Print Assumptions merge_flag_transfer.
+
+(* merge_preserves_unsafe, in the form that is TRUE: on ANY well-formed buffer without output in progress on which a
+   flag was recorded, mergeClusters(s, e) followed by propagateFlags returns normally, and the cluster c that survives
+   the merge (the minimum of the range = the start of the merged cluster in the text) keeps an unsafe-to-break flag that
+   any of its glyphs carried: afterwards EVERY glyph of cluster c is flagged.  The flags of the absorbed clusters are
+   dropped on purpose — their starts are no longer cluster boundaries — so the stronger reading "no flag of any merged
+   glyph is lost" is false (Findings/BufferFlags.v merge_keeps_every_unsafe_refuted), as is the analogue for deleteGlyph
+   when the deleted glyph's cluster survives in a neighbour (delete_keeps_cluster_unsafe_refuted). *)
+Theorem merge_preserves_unsafe : forall lo hi b s e,
+  (level b =? 2) = false -> WF lo hi b = true -> have_out b = false -> has_gf b = true ->
+  0 <= s -> s + 2 <= e -> e <= zlen (info b) ->
+  exists b1 b2, merge_clusters b s e = Ok b1 /\ propagate_flags b1 = Ok b2
+    /\ Forall2 (mrel (lmin (cls (slice s e (info b)))) fl0) (info b) (info b1)
+    /\ cls (info b2) = cls (info b1)
+    /\ (forall g, In g (info b) -> cl g = lmin (cls (slice s e (info b))) -> utb (gf g) = true ->
+        forall h, In h (info b2) -> cl h = cl g -> utb (gf h) = true).
+Proof. exact merge_preserves_unsafe_lemma. Qed.
+Print Assumptions merge_preserves_unsafe.
+
+(* propagateFlags itself never drops an unsafe-to-break flag: the whole cluster of a flagged glyph ends up flagged *)
+Theorem propagate_keeps_unsafe : forall b b',
+  (level b =? 2) = false -> monotone (cls (info b)) = true -> has_gf b = true -> propagate_flags b = Ok b' ->
+  forall g, In g (info b) -> utb (gf g) = true -> forall h, In h (info b') -> cl h = cl g -> utb (gf h) = true.
+Proof. exact BufferOps.propagate_keeps_unsafe. Qed.
+Print Assumptions propagate_keeps_unsafe.
+
+(* deleteGlyph (any buffer with the cursor on a glyph): glyph by glyph, an out-buffer glyph is either untouched or takes
+   over the cluster of the deleted glyph TOGETHER WITH the deleted glyph's flags (backward merge); Info glyphs are
+   untouched or merged forward with cleared flags (only when the out-buffer is empty, i.e. at the start of the text) *)
+Theorem delete_flag_transfer : forall b,
+  (level b =? 2) = false -> 0 <= idx b -> idx b < zlen (info b) ->
+  exists b' c', delete_glyph b = Ok b'
+    /\ Forall2 (mrel (cl (nth (Z.to_nat (idx b)) (info b) g0)) (gf (nth (Z.to_nat (idx b)) (info b) g0))) (out b) (out b')
+    /\ Forall2 (mrel c' fl0) (info b) (info b')
+    /\ has_gf b' = has_gf b /\ idx b' = idx b + 1.
+Proof. exact BufferOps.delete_flag_transfer. Qed.
+Print Assumptions delete_flag_transfer.
+
+(* non-vacuity: RTL buffer 2 1 1 0 with cluster 1 flagged on one glyph; merging [0, 2) gives 1 1 1 0 and after
+   propagateFlags all three glyphs of cluster 1 are flagged (the flag of the absorbed cluster 2 would have been dropped) *)
+Example merge_unsafe_example :
+  let u := mkFl true true false in
+  let b := mkB [mkG 2 fl0 0 65 1; mkG 1 u 0 66 2; mkG 1 fl0 0 67 3; mkG 0 fl0 0 68 4] [] 0 false 4 4 0 true false true in
+  WF 0 3 b = true
+  /\ exists b1 b2, merge_clusters b 0 2 = Ok b1 /\ propagate_flags b1 = Ok b2
+       /\ cls (info b2) = [1; 1; 1; 0] /\ map gf (info b2) = [u; u; u; fl0].
+Proof. cbv zeta. split; [reflexivity|]. eexists. eexists. repeat split; vm_compute; reflexivity. Qed.
+
+(* non-vacuity: RTL, out-buffer [3 3], deleting the flagged glyph of cluster 2: both out glyphs take cluster 2 and the flag *)
+Example delete_unsafe_example :
+  let u := mkFl true true false in
+  let b := mkB [mkG 3 fl0 0 65 1; mkG 3 fl0 0 66 2; mkG 2 u 0 67 3; mkG 0 fl0 0 68 4] [mkG 3 fl0 0 65 1; mkG 3 fl0 0 66 2] 2 true 4 4 0 true false true in
+  exists b', delete_glyph b = Ok b' /\ cls (out b') = [2; 2] /\ map gf (out b') = [u; u].
+Proof. cbv zeta. eexists. repeat split; vm_compute; reflexivity. Qed.
+
 (* non-vacuity: window [0, 3) of an LTR buffer with clusters 0 1 1 3: the two glyphs of cluster 1 get flagged *)
 Example unsafe_example :
   let b := mkB [mkG 0 fl0 0 65 1; mkG 1 fl0 0 66 2; mkG 1 fl0 0 67 3; mkG 3 fl0 0 68 4] [] 0 false 4 4 0 false false false in
@@ -49,3 +157,17 @@ Example flags_example :
   monotone (cls (info b)) = true /\ has_gf b = true
   /\ exists b', propagate_flags b = Ok b' /\ map gf (info b') = [fl0; mkFl true true false; mkFl true true false; fl0].
 Proof. cbv zeta. split; [reflexivity|]. split; [reflexivity|]. eexists. split; vm_compute; reflexivity. Qed.
+
+(* non-vacuity: unsafeToConcat / safeToInsertTatweel with the producing buffer flags set, window [0, 3) of 0 1 1 3 *)
+Example concat_tatweel_example :
+  let b := mkB [mkG 0 fl0 0 65 1; mkG 1 fl0 0 66 2; mkG 1 fl0 0 67 3; mkG 3 fl0 0 68 4] [] 0 false 4 4 0 true true false in
+  (exists b', unsafe_to_concat b 0 3 = Ok b' /\ map gf (info b') = [fl0; m_concat; m_concat; fl0] /\ has_gf b' = true)
+  /\ (exists b', safe_to_insert_tatweel b 0 3 = Ok b' /\ map gf (info b') = [fl0; m_tatweel; m_tatweel; fl0]).
+Proof. cbv zeta. split; eexists; repeat split; vm_compute; reflexivity. Qed.
+
+(* non-vacuity: out-buffer 0 1, unread input 1 3 (cursor 2): window out[1:] ++ Info[2:4] = clusters 1 1 3, only 3 is flagged *)
+Example from_outbuffer_example :
+  let b := mkB [mkG 0 fl0 0 65 1; mkG 1 fl0 0 66 2; mkG 1 fl0 0 67 3; mkG 3 fl0 0 68 4] [mkG 0 fl0 0 65 1; mkG 1 fl0 0 66 2] 2 true 4 4 0 false false false in
+  monotone (cls (bseq b)) = true
+  /\ exists b', unsafe_to_break_from_outbuffer b 1 4 = Ok b' /\ map gf (out b') = [fl0; fl0] /\ map gf (info b') = [fl0; fl0; fl0; m_break].
+Proof. cbv zeta. split; [reflexivity|]. eexists. repeat split; vm_compute; reflexivity. Qed.
